@@ -542,7 +542,8 @@ def _same_symbol(interp, a, b):
 def constructor_table(ctx, rule, class_qualname, max_tokens, mode="wellformed", result_rule=None):
     """
     mode "wellformed": compare accepted items / limits on well-formed, non-overlapping sequences (C01).
-    mode "errors": every sequence must end in acceptance or InterfaceError, malformed ones in InterfaceError (C09/C10).
+    mode "errors": every sequence must end in acceptance or InterfaceError (C10).
+    mode "refusal": malformed sequences (and sequences without any item) must end in InterfaceError (C09, C03).
     """
     model = ctx.model
     decimal = class_qualname == DECIMAL_RANGE
@@ -654,6 +655,17 @@ def constructor_table(ctx, rule, class_qualname, max_tokens, mode="wellformed", 
             # C10: whatever the description, the constructor accepts it or raises InterfaceError - nothing else
             actual = outcome if outcome not in ("accept", "raise InterfaceError") else "accept-or-InterfaceError"
             return (sequence, actual, "accept-or-InterfaceError")
+        if mode == "refusal":
+            # C09 "a well-formed length and rule": a description that is no list of items of at most two limits around
+            # one ellipsis, or that holds no item at all, is refused - not silently read as something else
+            no_item = verdict[0] == "dontcare" and verdict[1].startswith("empty item") and not any(
+                kind in ("NUM", "NAME", "STRING") for kind, _ in tokens_for_oracle)
+            if verdict[0] == "malformed" or no_item:
+                if outcome == "raise InterfaceError":
+                    return (sequence, None, None)
+                reason = "no item at all" if no_item else verdict[1]
+                return (sequence, "%s is not refused: %s" % (reason, "accepted" if outcome == "accept" else outcome), sequence)
+            return None
         # mode wellformed
         if verdict[0] != "ok":
             return None
@@ -687,6 +699,11 @@ def constructor_table(ctx, rule, class_qualname, max_tokens, mode="wellformed", 
             return (key, ("limits", _show(actual_lower), _show(actual_upper)), ("limits", _show(expected_lower), _show(expected_upper)))
         return (key, "ok", "ok")
 
+    if mode == "refusal":
+        from ..tablekit import decide_kinds
+
+        return decide_kinds(ctx, rule, "constructor(<=%d tokens,%s)" % (max_tokens, mode), qualname, cell, min_cells=20,
+                            key_name="constructor(%s)" % mode)
     return decide(ctx, rule, "constructor(<=%d tokens,%s)" % (max_tokens, mode), qualname, cell, min_cells=20,
                   key_name="constructor(%s)" % mode)
 
